@@ -1757,6 +1757,30 @@ impl<K: Hash + Eq, V, RH: BuildHasher, REH: BuildHasher, FH: BuildHasher, FEH: B
     }
 }
 
+/// Verification hooks (feature `verif-hooks`): read-only views of the four lists.
+#[cfg(feature = "verif-hooks")]
+impl<K, V, RH, REH, FH, FEH> AdaptiveCache<K, V, RH, REH, FH, FEH> {
+    /// The recent list.
+    pub fn verif_recent(&self) -> &RawLRU<K, V, DefaultEvictCallback, RH> {
+        &self.recent
+    }
+
+    /// The ghost list of the recent list.
+    pub fn verif_recent_evict(&self) -> &RawLRU<K, V, DefaultEvictCallback, REH> {
+        &self.recent_evict
+    }
+
+    /// The frequent list.
+    pub fn verif_frequent(&self) -> &RawLRU<K, V, DefaultEvictCallback, FH> {
+        &self.frequent
+    }
+
+    /// The ghost list of the frequent list.
+    pub fn verif_frequent_evict(&self) -> &RawLRU<K, V, DefaultEvictCallback, FEH> {
+        &self.frequent_evict
+    }
+}
+
 #[cfg(test)]
 mod test {
     use crate::{AdaptiveCache, Cache};
